@@ -10,7 +10,16 @@ static void rec_assign(var self, var obj) { cv_calls++; cv_self = self; cv_obj =
 static struct Assign cv_inst = { rec_assign };
 static int has_method, has_inst; static size_t in_size; static var T1, T2;
 static struct { struct Header h; unsigned char v[16]; } A, B;
-var header_init(var head, var type, int alloc) { struct Header* self = head; self->type = type; self->alloc = (var)(intptr_t)alloc; self->magic = (var)CELLO_MAGIC_NUM; return ((char*)self) + sizeof(struct Header); }
+var header_init(var head, var type, int alloc) {      /* per its K1 contract (C19.header_init.k1), in every build configuration */
+  struct Header* self = head; self->type = type;
+#if CELLO_ALLOC_CHECK == 1
+  self->alloc = (var)(intptr_t)alloc;
+#endif
+#if CELLO_MAGIC_CHECK == 1
+  self->magic = (var)CELLO_MAGIC_NUM;
+#endif
+  return ((char*)self) + sizeof(struct Header);
+}
 var type_of(var self) { return HDR(self)->type; }
 var instance(var self, var cls) { __CPROVER_assert(cls == Assign, "instance(self, Assign)"); return has_inst ? &cv_inst : NULL; }
 size_t size(var type) { return in_size; }
